@@ -175,6 +175,11 @@ def run(rep, tier):
     prog = program(['conjure_serde'])
     NMAX = 2 if tier == 'quick' else 3
     rep.bounds['documents'] = f'object documents of <= {NMAX} members, keys from the declared fields plus one undeclared key in every position and order; declared field sets: none, one, two; JSON and Smile server and client entry points'
+    # nesting depth: every entry point of de::Override hands the same wrapper on (one inductive step each), so the behaviour decided
+    # below for one object level is the behaviour at every depth through optionals, sequences, maps, newtypes and enum variants
+    from checks import c01w
+    c01w.run_de(rep, prog)
+    c01w.twins(rep)
     entries = []
     for fmt in ('json', 'smile'):
         for side in ('server', 'client'):
